@@ -119,5 +119,108 @@ func (e *Engine) opAddSub(c *cursor) *Violation {
 	return nil
 }
 
-func (e *Engine) opLockEnum(c *cursor) *Violation { e.St.Skipped++; return nil }
-func (e *Engine) opSweep(c *cursor) *Violation    { e.St.Skipped++; return nil }
+// opLockEnum: the C09 enumeration step. Unlocked: take a lock through a drawn source (plain / registered / relation
+// query, or the query returned by a batch call). Locked: a burst of structural entry points, each of which must be
+// refused and leave everything unchanged (issue() checks both).
+func (e *Engine) opLockEnum(c *cursor) *Violation {
+	seed := uint64(c.n(1<<30))<<20 ^ uint64(c.n(1<<30))
+	sm := SplitMix{s: seed}
+	sub := func() *cursor {
+		a := make([]uint32, 14)
+		for i := range a {
+			a[i] = uint32(sm.Next())
+		}
+		return &cursor{a: a}
+	}
+	if !e.locked() {
+		e.forceQ = true
+		defer func() { e.forceQ = false }()
+		switch sm.Next() % 4 {
+		case 0, 1:
+			return e.opQOpen(sub())
+		case 2:
+			return e.opNewBatch(sub())
+		default:
+			return e.opBatch(sub())
+		}
+	}
+	src := e.lockSource()
+	n := 4 + int(sm.Next()%6)
+	for i := 0; i < n; i++ {
+		var v *Violation
+		before := e.St.Faults["locked-call"]
+		k := sm.Next() % 9
+		switch k {
+		case 0:
+			v = e.opNew(sub())
+		case 1:
+			v = e.opNewBatch(sub())
+		case 2:
+			v = e.opRemove(sub())
+		case 3:
+			v = e.opExchange(sub())
+		case 4:
+			v = e.opSetRel(sub())
+		case 5:
+			v = e.opBatch(sub())
+		case 6:
+			v = e.opReset(sub())
+		case 7:
+			v = e.opRegType(sub())
+		default:
+			v = e.loadRefused()
+		}
+		if v != nil {
+			return v
+		}
+		if e.St.Faults["locked-call"] > before {
+			e.St.Probes["refused-under:"+src]++
+		}
+	}
+	e.St.Probes["lockenum-burst"]++
+	return nil
+}
+
+// lockSource names the way the (first) lock is currently held.
+func (e *Engine) lockSource() string {
+	if len(e.Open) == 0 {
+		return "none"
+	}
+	oq := e.Open[0]
+	s := "plain"
+	if oq.Batch {
+		s = "batch-result"
+	} else if oq.Cached {
+		s = "registered"
+	} else if e.Slots[oq.Slot].Kind == "relation" {
+		s = "relation"
+	}
+	if len(e.Open) > 1 {
+		s += "+nested"
+	}
+	return s
+}
+
+// loadRefused: LoadEntities on a locked world must be refused.
+func (e *Engine) loadRefused() *Violation {
+	if !e.locked() {
+		return nil
+	}
+	d := e.S.W.DumpEntities()
+	refused := false
+	func() {
+		defer func() {
+			if r := recover(); r != nil {
+				refused = true
+			}
+		}()
+		e.S.W.LoadEntities(&d)
+	}()
+	e.St.Faults["locked-call"]++
+	e.St.Ops["load"]++
+	if !refused {
+		return e.viol("lock-not-enforced", &COp{Kind: "load", Rel: -1}, "LoadEntities succeeded on a locked world")
+	}
+	return e.checkAll(e.S, "state-after-locked-call")
+}
+func (e *Engine) opSweep(c *cursor) *Violation { e.St.Skipped++; return nil }
